@@ -2,7 +2,7 @@
     retired nameplate / mailbox.  Classification and timing rule (for EVERY
     number of sides and every list of moods); the counting part (one record per
     retirement, none otherwise, the status row) is quoted from UsageCount.v. *)
-From MW Require Import Base Store Monad Usage Server Websocket Service Inv Obs UsageFacts ProtoFacts UsageCount UsageCount2 ActivityFacts Inst_Params RestartUsage UsageRun.
+From MW Require Import Base Store Monad Usage Server Websocket Service Inv Obs UsageFacts ProtoFacts UsageCount UsageCount2 ActivityFacts Inst_Params RestartUsage UsageRun ArrivalFacts.
 
 (** nameplates: crowded (> 2 sides), else pruney, else happy (2 sides), else lonely *)
 Theorem C15_nameplate_result :
@@ -196,3 +196,24 @@ Example C15_nonvacuous :
   /\ umb_result (summarize_mailbox None "a" true
      [mkMbs "m" false "s1" 10 (Some "weird"); mkMbs "m" false "s2" 12 None] 20 false) = "happy"%string.
 Proof. vm_compute. split; reflexivity. Qed.
+
+(** * `when its first and second sides arrived` (quoted by type from ArrivalFacts.v) *)
+
+(** the stored `added` of every side row is the clock of the event at which that side first claimed / opened (/ closed, on a fresh connection) that nameplate / mailbox, and stays *)
+Theorem C15_side_added_is_arrival : ltac:(let t := type of side_added_is_arrival in exact t).
+Proof. exact side_added_is_arrival. Qed.
+Check C15_side_added_is_arrival.
+Print Assumptions C15_side_added_is_arrival.
+
+(** in crash-free histories every mailbox has a side row *)
+Theorem C15_crash_free_mailboxes_sided : ltac:(let t := type of crash_free_mailboxes_sided in exact t).
+Proof. exact crash_free_mailboxes_sided. Qed.
+Check C15_crash_free_mailboxes_sided.
+Print Assumptions C15_crash_free_mailboxes_sided.
+
+(** the arrival event may be a command cut short by a crash *)
+Theorem C15_side_arrival_plain_command_refuted : ltac:(let t := type of side_arrival_plain_command_refuted in exact t).
+Proof. exact side_arrival_plain_command_refuted. Qed.
+Check C15_side_arrival_plain_command_refuted.
+Print Assumptions C15_side_arrival_plain_command_refuted.
+
